@@ -302,6 +302,7 @@ def handleTraffic (j : Json) : Json :=
     (if getStr req "ct" == "application/x-c10-typed" then ["req.typed-value"] else []) ++
     (if getStr req "ct" == "application/x-c10-typed" && ((getStr req "body").splitOn "[{\"i\"").length + ((getStr req "body").splitOn "[{\"b\"").length + ((getStr req "body").splitOn "[{\"f\"").length > 3 then ["req.typed-non-string-key"] else []) ++
     (if getNat j "repeat" ≥ 2 then ["history.repeat"] else []) ++
+    (if !(getArr j "before").isEmpty then ["history.other-document-first"] else []) ++
     (if getNat j "repeat" ≥ 2 && getBool j "reuse" then ["history.same-objects"] else []) ++
     (if (objects doc).any (fun o => (match o.getObjVal? "pattern" with | .ok (.str _) => true | _ => false) && getStr o "type" != "string") then ["doc.pattern-not-compiled-by-gate"] else []) ++
     (if literal then ["fixed.literal-template"] else []) ++ (if portBad then ["fixed.port-unclosed"] else []) ++
